@@ -184,6 +184,7 @@ void lp_polynomial_assign(lp_polynomial_t* A, const lp_polynomial_t* from) {
   if (A != from) {
     lp_polynomial_set_context(A, from->ctx);
     coefficient_assign(A->ctx, &A->data, &from->data);
+    A->hash = 0;
   }
 }
 
@@ -242,12 +243,14 @@ void lp_polynomial_reductum(lp_polynomial_t* R, const lp_polynomial_t* A) {
   lp_polynomial_external_clean(A);
   lp_polynomial_set_context(R, A->ctx);
   coefficient_reductum(A->ctx, &R->data, &A->data);
+  R->hash = 0;
 }
 
 void lp_polynomial_reductum_m(lp_polynomial_t* R, const lp_polynomial_t* A, const lp_assignment_t* m) {
   lp_polynomial_external_clean(A);
   lp_polynomial_set_context(R, A->ctx);
   coefficient_reductum_m(A->ctx, &R->data, &A->data, m, 0);
+  R->hash = 0;
 }
 
 int lp_polynomial_is_constant(const lp_polynomial_t* A) {
@@ -417,6 +420,7 @@ void lp_polynomial_add(lp_polynomial_t* S, const lp_polynomial_t* A1, const lp_p
   lp_polynomial_set_context(S, A1->ctx);
 
   coefficient_add(S->ctx, &S->data, &A1->data, &A2->data);
+  S->hash = 0;
 
   if (trace_is_enabled("polynomial")) {
     tracef("polynomial_add() => "); lp_polynomial_print(S, trace_out); tracef("\n");
@@ -436,6 +440,7 @@ void lp_polynomial_add_monomial(lp_polynomial_t* S, const lp_monomial_t* M) {
   lp_polynomial_external_clean(S);
 
   coefficient_add_monomial(S->ctx, &S->data, M);
+  S->hash = 0;
 
   if (trace_is_enabled("polynomial")) {
     tracef("polynomial_add() => "); lp_polynomial_print(S, trace_out); tracef("\n");
@@ -461,6 +466,7 @@ void lp_polynomial_sub(lp_polynomial_t* S, const lp_polynomial_t* A1, const lp_p
   lp_polynomial_set_context(S, A1->ctx);
 
   coefficient_sub(S->ctx, &S->data, &A1->data, &A2->data);
+  S->hash = 0;
 
   if (trace_is_enabled("polynomial")) {
     tracef("polynomial_sub() => "); lp_polynomial_print(S, trace_out); tracef("\n");
@@ -474,6 +480,7 @@ void lp_polynomial_neg(lp_polynomial_t* N, const lp_polynomial_t* A) {
   lp_polynomial_set_context(N, N->ctx);
 
   coefficient_neg(N->ctx, &N->data, &A->data);
+  N->hash = 0;
 }
 
 void lp_polynomial_mul(lp_polynomial_t* P, const lp_polynomial_t* A1, const lp_polynomial_t* A2) {
@@ -494,6 +501,7 @@ void lp_polynomial_mul(lp_polynomial_t* P, const lp_polynomial_t* A1, const lp_p
   lp_polynomial_set_context(P, A1->ctx);
 
   coefficient_mul(P->ctx, &P->data, &A1->data, &A2->data);
+  P->hash = 0;
 
   if (trace_is_enabled("polynomial")) {
     tracef("polynomial_mul() => "); lp_polynomial_print(P, trace_out); tracef("\n");
@@ -516,6 +524,7 @@ void lp_polynomial_mul_integer(lp_polynomial_t* P, const lp_polynomial_t* A1, co
   lp_polynomial_set_context(P, A1->ctx);
 
   coefficient_mul_integer(P->ctx, &P->data, &A1->data, C);
+  P->hash = 0;
 
   if (trace_is_enabled("polynomial")) {
     tracef("polynomial_mul() => "); lp_polynomial_print(P, trace_out); tracef("\n");
@@ -532,6 +541,7 @@ void lp_polynomial_shl(lp_polynomial_t* S, const lp_polynomial_t* A, unsigned n)
 
   assert(A->data.type == COEFFICIENT_POLYNOMIAL);
   coefficient_shl(S->ctx, &S->data, &A->data, VAR(&A->data), n);
+  S->hash = 0;
 }
 
 void lp_polynomial_pow(lp_polynomial_t* P, const lp_polynomial_t* A, unsigned n) {
@@ -549,6 +559,7 @@ void lp_polynomial_pow(lp_polynomial_t* P, const lp_polynomial_t* A, unsigned n)
   lp_polynomial_set_context(P, A->ctx);
 
   coefficient_pow(P->ctx, &P->data, &A->data, n);
+  P->hash = 0;
 
   if (trace_is_enabled("polynomial")) {
     tracef("polynomial_pow() => "); lp_polynomial_print(P, trace_out); tracef("\n");
@@ -567,6 +578,7 @@ void lp_polynomial_add_mul(lp_polynomial_t* S, const lp_polynomial_t* A1, const 
   lp_polynomial_external_clean(A2);
 
   coefficient_add_mul(ctx, &S->data, &A1->data, &A2->data);
+  S->hash = 0;
 }
 
 void lp_polynomial_sub_mul(lp_polynomial_t* S, const lp_polynomial_t* A1, const lp_polynomial_t* A2) {
@@ -581,6 +593,7 @@ void lp_polynomial_sub_mul(lp_polynomial_t* S, const lp_polynomial_t* A1, const 
   lp_polynomial_external_clean(A2);
 
   coefficient_sub_mul(ctx, &S->data, &A1->data, &A2->data);
+  S->hash = 0;
 }
 
 void lp_polynomial_div(lp_polynomial_t* D, const lp_polynomial_t* A1, const lp_polynomial_t* A2) {
@@ -601,6 +614,7 @@ void lp_polynomial_div(lp_polynomial_t* D, const lp_polynomial_t* A1, const lp_p
   lp_polynomial_set_context(D, A1->ctx);
 
   coefficient_div(D->ctx, &D->data, &A1->data, &A2->data);
+  D->hash = 0;
 
   if (trace_is_enabled("polynomial")) {
     tracef("polynomial_div() => "); lp_polynomial_print(D, trace_out); tracef("\n");
@@ -625,6 +639,7 @@ void lp_polynomial_rem(lp_polynomial_t* R, const lp_polynomial_t* A1, const lp_p
   lp_polynomial_set_context(R, A1->ctx);
 
   coefficient_rem(R->ctx, &R->data, &A1->data, &A2->data);
+  R->hash = 0;
 
   if (trace_is_enabled("polynomial")) {
     tracef("polynomial_rem() => "); lp_polynomial_print(R, trace_out); tracef("\n");
@@ -649,6 +664,7 @@ void lp_polynomial_prem(lp_polynomial_t* R, const lp_polynomial_t* A1, const lp_
   lp_polynomial_set_context(R, A1->ctx);
 
   coefficient_prem(R->ctx, &R->data, &A1->data, &A2->data);
+  R->hash = 0;
 
   if (trace_is_enabled("polynomial")) {
     tracef("polynomial_prem() => "); lp_polynomial_print(R, trace_out); tracef("\n");
@@ -674,6 +690,7 @@ void lp_polynomial_pdivrem(lp_polynomial_t* D, lp_polynomial_t* R, const lp_poly
     lp_polynomial_set_context(R, A1->ctx);
 
     coefficient_pdivrem(D->ctx, &D->data, &R->data, &A1->data, &A2->data);
+    D->hash = 0; R->hash = 0;
 
     if (trace_is_enabled("polynomial")) {
         tracef("polynomial_pdirvrem() => ("); lp_polynomial_print(D, trace_out); tracef(", "); lp_polynomial_print(R, trace_out); tracef(")\n");
@@ -698,6 +715,7 @@ void lp_polynomial_sprem(lp_polynomial_t* R, const lp_polynomial_t* A1, const lp
   lp_polynomial_set_context(R, A1->ctx);
 
   coefficient_sprem(R->ctx, &R->data, &A1->data, &A2->data);
+  R->hash = 0;
 
   if (trace_is_enabled("polynomial")) {
     tracef("polynomial_sprem() => "); lp_polynomial_print(R, trace_out); tracef("\n");
@@ -723,6 +741,7 @@ void lp_polynomial_spdivrem(lp_polynomial_t* D, lp_polynomial_t* R, const lp_pol
     lp_polynomial_set_context(R, A1->ctx);
 
     coefficient_spdivrem(D->ctx, &D->data, &R->data, &A1->data, &A2->data);
+    D->hash = 0; R->hash = 0;
 
     if (trace_is_enabled("polynomial")) {
         tracef("lp_polynomial_spdirvrem() => ("); lp_polynomial_print(D, trace_out); tracef(", "); lp_polynomial_print(R, trace_out); tracef(")\n");
@@ -748,6 +767,7 @@ void lp_polynomial_divrem(lp_polynomial_t* D, lp_polynomial_t* R, const lp_polyn
   lp_polynomial_set_context(R, A1->ctx);
 
   coefficient_divrem(D->ctx, &D->data, &R->data, &A1->data, &A2->data);
+  D->hash = 0; R->hash = 0;
 
   if (trace_is_enabled("polynomial")) {
     tracef("polynomial_rem() => ("); lp_polynomial_print(D, trace_out); tracef(", "); lp_polynomial_print(R, trace_out); tracef(")\n");
@@ -769,6 +789,7 @@ void lp_polynomial_derivative(lp_polynomial_t* A_d, const lp_polynomial_t* A) {
   lp_polynomial_set_context(A_d, A->ctx);
 
   coefficient_derivative(A_d->ctx, &A_d->data, &A->data);
+  A_d->hash = 0;
 
   if (trace_is_enabled("polynomial")) {
     tracef("polynomial_derivative() => "); lp_polynomial_print(A_d, trace_out); tracef("\n");
@@ -793,6 +814,7 @@ void lp_polynomial_gcd(lp_polynomial_t* gcd, const lp_polynomial_t* A1, const lp
   lp_polynomial_set_context(gcd, A1->ctx);
 
   coefficient_gcd(gcd->ctx, &gcd->data, &A1->data, &A2->data);
+  gcd->hash = 0;
 
   if (trace_is_enabled("polynomial")) {
     tracef("polynomial_gcd() => "); lp_polynomial_print(gcd, trace_out); tracef("\n");
@@ -808,6 +830,7 @@ void lp_polynomial_lcm(lp_polynomial_t* lcm, const lp_polynomial_t* A1, const lp
   lp_polynomial_set_context(lcm, A1->ctx);
 
   coefficient_lcm(lcm->ctx, &lcm->data, &A1->data, &A2->data);
+  lcm->hash = 0;
 }
 
 void lp_polynomial_reduce(
@@ -834,6 +857,7 @@ void lp_polynomial_reduce(
   lp_polynomial_set_context(R, ctx);
 
   coefficient_reduce(ctx, &A->data, &B->data, &P->data, &Q->data, &R->data, REMAINDERING_PSEUDO_DENSE);
+  P->hash = 0; Q->hash = 0; R->hash = 0;
 
   if (trace_is_enabled("polynomial")) {
     tracef("polynomial_reduce() =>\n");
@@ -848,6 +872,7 @@ void lp_polynomial_cont(lp_polynomial_t* cont, const lp_polynomial_t* A) {
   lp_polynomial_external_clean(A);
   lp_polynomial_set_context(cont, ctx);
   coefficient_cont(ctx, &cont->data, &A->data);
+  cont->hash = 0;
 }
 
 void lp_polynomial_pp(lp_polynomial_t* pp, const lp_polynomial_t* A) {
@@ -855,6 +880,7 @@ void lp_polynomial_pp(lp_polynomial_t* pp, const lp_polynomial_t* A) {
   lp_polynomial_external_clean(A);
   lp_polynomial_set_context(pp, ctx);
   coefficient_pp(ctx, &pp->data, &A->data);
+  pp->hash = 0;
 }
 
 void lp_polynomial_pp_cont(lp_polynomial_t* pp, lp_polynomial_t* cont, const lp_polynomial_t* A) {
@@ -863,6 +889,7 @@ void lp_polynomial_pp_cont(lp_polynomial_t* pp, lp_polynomial_t* cont, const lp_
   lp_polynomial_set_context(pp, ctx);
   lp_polynomial_set_context(cont, ctx);
   coefficient_pp_cont(ctx, &pp->data, &cont->data, &A->data);
+  pp->hash = 0; cont->hash = 0;
 }
 
 void lp_polynomial_psc(lp_polynomial_t** psc, const lp_polynomial_t* A, const lp_polynomial_t* B) {
@@ -1040,6 +1067,7 @@ void lp_polynomial_resultant(lp_polynomial_t* res, const lp_polynomial_t* A, con
 
   // Compute
   coefficient_resultant(ctx, &res->data, &A->data, &B->data);
+  res->hash = 0;
 
   if (trace_is_enabled("polynomial")) {
     tracef("polynomial_resultant("); lp_polynomial_print(A, trace_out); tracef(", "); lp_polynomial_print(B, trace_out); tracef(") => "); lp_polynomial_print(res, trace_out); tracef("\n");
@@ -2418,4 +2446,5 @@ void lp_polynomial_reduce_degree_Zp(lp_polynomial_t *R, const lp_polynomial_t *A
     lp_polynomial_swap(&tmp, R);
     lp_polynomial_destruct(&tmp);
   }
+  R->hash = 0;
 }
